@@ -23,16 +23,17 @@ type FuncSrc struct {
 }
 
 type Prog struct {
-	Fset    *token.FileSet
-	Pkgs    []*packages.Package          // module packages (product + helper)
-	ByPath  map[string]*packages.Package // by import path (module only)
-	All     map[string]*packages.Package // every loaded package incl. deps
-	Funcs   map[*types.Func]*FuncSrc     // in-module product functions with bodies
-	ByName  map[string]*FuncSrc          // FullName (abbreviated) -> src
-	Dir     string
-	forPats map[types.Object]ast.Expr
-	ModPath string // module path of the analysed tree
-	DepVers map[string]string
+	Fset           *token.FileSet
+	Pkgs           []*packages.Package          // module packages (product + helper)
+	ByPath         map[string]*packages.Package // by import path (module only)
+	All            map[string]*packages.Package // every loaded package incl. deps
+	Funcs          map[*types.Func]*FuncSrc     // in-module product functions with bodies
+	ByName         map[string]*FuncSrc          // FullName (abbreviated) -> src
+	Dir            string
+	forPats        map[types.Object]ast.Expr
+	forPatsButLast map[types.Object]ast.Expr
+	ModPath        string // module path of the analysed tree
+	DepVers        map[string]string
 }
 
 // isProductPkg: packages whose code is subject to the rules.
